@@ -487,6 +487,7 @@ def compare_replay(model_evs, real_evs, fields, ignore_driver=False):
     """model_evs: list of event dicts from the model path; real_evs: recorded events of the execution.
     Returns index of first mismatch or None."""
     real = [e for e in real_evs if e.get('s', 0) == 1 and e['k'] not in LIFE and not (ignore_driver and e['t'] == 0)]
+    model_evs = [e for e in model_evs if e['k'] != 'pu']
     for i, me in enumerate(model_evs):
         if i >= len(real):
             return i
